@@ -143,7 +143,7 @@ class TV(object):
         return not (type(o) is TV and self.n == o.n)
 
     def __hash__(self):
-        return hash(("TV", self.n))
+        return hash((0x5456, self.n))     # (no str: its hash is seeded)
 
     def __reduce__(self):
         return (TV, (self.n,))
@@ -220,7 +220,7 @@ class FV(object):
         return not (type(o) is FV and self.n == o.n)
 
     def __hash__(self):
-        return hash(("FV", self.n))
+        return hash((0x4656, self.n))
 
     def __reduce__(self):
         return (FV, (self.n,))
@@ -272,7 +272,7 @@ class FK(object):
         return not (type(o) is FK and self.n == o.n)
 
     def __hash__(self):
-        return hash(("FK", self.n))
+        return hash((0x464b, self.n))
 
     def __reduce__(self):
         return (FK, (self.n,))
